@@ -40,6 +40,13 @@ func (u *Unit) staticCallee(call *ast.CallExpr) *types.Func {
 }
 
 func (u *Unit) evalCall(call *ast.CallExpr, st *State) []Val {
+	if cs, ok := u.atAsserts[call]; ok && !u.inSpec {
+		for _, c := range cs {
+			g := u.evalClause(c, st, u.entry, nil, nil)
+			u.oblige(st, "at#"+c.At+"#"+fmt.Sprint(c.Line), "assert", g, u.clauseProps(c), c, "in-body assertion before call "+c.At+": "+c.Text, call)
+			st.assume(g)
+		}
+	}
 	// conversion
 	if tv, ok := u.info.Types[call.Fun]; ok && tv.IsType() {
 		v := u.evalExpr(call.Args[0], st)
@@ -125,6 +132,16 @@ func (u *Unit) evalRecv(se *ast.SelectorExpr, sel *types.Selection, st *State) V
 	base := u.evalExpr(se.X, st)
 	baseT := typeOf(u.info, se.X)
 	path := sel.Index()
+	if fo, ok := sel.Obj().(*types.Func); ok && (fo.Pkg() == nil || !strings.HasPrefix(fo.Pkg().Path(), modPath)) {
+		// method of an external type: the receiver is the static expression; a nil
+		// receiver panics unless the method is known to be nil-safe
+		if base.S == "Int" && !extNilSafeRecv[extKey(fo)] && !u.inSpec {
+			if _, isPtr := types.Unalias(baseT).Underlying().(*types.Pointer); isPtr || isInterface(baseT) {
+				u.nilCheck(st, se, base)
+			}
+		}
+		return base
+	}
 	cur := base
 	curT := baseT
 	if len(path) > 1 {
@@ -731,6 +748,17 @@ func (u *Unit) callByContract(call *ast.CallExpr, f *types.Func, con *Contract, 
 		for _, a := range all {
 			if a.Addr != nil {
 				if pt, ok := a.GT.Underlying().(*types.Pointer); ok {
+					dk := map[string]bool{}
+					derefKeys(pt.Elem(), dk, u.reg)
+					hit := false
+					for k := range u.prog.modSetOf(f) {
+						if dk[k] {
+							hit = true
+						}
+					}
+					if !hit {
+						continue
+					}
 					nv := u.loadDeref(st, a, pt.Elem())
 					saved := u.noSafety
 					u.noSafety = true
@@ -791,7 +819,7 @@ func isGhostVocabulary(f *types.Func) bool {
 		return false
 	}
 	switch f.Name() {
-	case "implies", "iff", "forall", "exists", "old", "has", "keys", "dynIs", "unboxed", "seqEq", "setEq", "ite", "allocated", "isFresh", "sortedStrings", "permOf":
+	case "implies", "iff", "forall", "exists", "old", "has", "keys", "dynIs", "unboxed", "seqEq", "setEq", "typeOK", "ite", "allocated", "isFresh", "sortedStrings", "permOf":
 		pos := f.Pos()
 		_ = pos
 		return true
